@@ -31,3 +31,17 @@ def probe_a(detector, tag=None, **kwargs):
 
 def probe_b(detector, tag=None, **kwargs):
     probe(detector, tag=tag, **kwargs)
+
+
+def init_buckets(detector):
+    """Always-enabled helper model: initialises the buckets the real exposure loop needs to build its result
+    (real pyxel cannot merge >= 2 readouts when no model ever writes the image).  Not recorded in TRACE."""
+    import numpy as np
+
+    shape = (detector.geometry.row, detector.geometry.col)
+    if detector.photon._array is None:
+        detector.photon.array = np.zeros(shape)
+    if detector.signal._array is None:
+        detector.signal.array = np.zeros(shape)
+    if detector.image._array is None:
+        detector.image.array = np.zeros(shape, dtype=np.uint16)
